@@ -13,9 +13,6 @@ def run(ctx):
     if ctx.tier == "thorough":
         ctx.leanchecker(["AvoVerif.Props.C03"])
     nt = lambda req, resp: req.startswith("accept-bind") and not req.endswith("=> 0")
-    if ctx.replay:
-        ctx.differential("c01", 0, nontrivial=nt, driver="drv_c01")
-        return
     n = 2500 if ctx.tier == "quick" else 60000
     ctx.differential("c01", n, nontrivial=nt, driver="drv_c01")
     ctx.coverage["rule"] = ("same generated functions as C01 (incl. ones exceeding 15 GP / 32 vector / 7 mask registers and 8H-heavy ones); "
